@@ -36,6 +36,10 @@ LAYOUTS = {
     "two-entries": [("c", "f", 1), ("c", "f", 1), ("c", "f", 0), ("c", "g", 1)],
     "interleaved": [("c", "f", 1), ("c", "g", 1), ("c", "f", 0), ("c", "g", 0), ("d", None, 0)],
     "single": [("c", "f", 1), ("c", "f", 0), ("c", "f", 0), ("d", None, 0)],
+    # the entry of f is its LAST block (and the last block of the section), preceded by other blocks of f
+    "entry-last": [("c", "g", 1), ("c", "f", 0), ("c", "f", 1)],
+    # f ends in a block that loops back to itself and is followed by data
+    "loop-tail": [("c", "f", 1), ("c", "f", "loop"), ("d", None, 0), ("c", "g", 1)],
 }
 
 
@@ -44,8 +48,12 @@ def make_spec(name, functions=True):
     lay = LAYOUTS[name]
     for j, (k, f, e) in enumerate(lay):
         nm = scen.NAMES[j]
-        if k == "c":
+        if k == "c" and e == "loop":
+            b = scen.code_block(nm, [10 * (j + 1)], ["jmp", nm], f=f, e=False)
+        elif k == "c":
             last = j == len(lay) - 1 or lay[j + 1][0] == "d" or lay[j + 1][1] != f
+            if name == "entry-last" and j == 1:
+                last = False
             b = scen.code_block(nm, [10 * (j + 1), 10 * (j + 1) + 1][: 1 if last else 2], ["ret"] if last else None, f=f, e=bool(e))
         else:
             b = scen.data_block(nm, [0xD0 + j, 0xE0 + j])
@@ -76,6 +84,11 @@ def func_deletions(spec):
     blocks = [b for s in spec["sections"] for b in s["blocks"]]
     funcs = sorted({b["f"] for b in blocks if b.get("f")})
     for f in funcs:
+        # the real RewritingContext.delete_function
+        yield [{"op": "delfunc", "f": f}]
+        for b in blocks:
+            if b.get("f") != f and b["k"] == "c":
+                yield [{"op": "delfunc", "f": f}, {"op": "ins", "b": b["n"], "k": 0, "p": P_ORD}]
         for proxy in (True, False):
             dels = [{"op": "del", "b": b["n"], "k": 0, "n": len(b["i"]), **({"proxy": True} if proxy else {})} for b in blocks if b.get("f") == f]
             yield dels
